@@ -54,7 +54,7 @@ def parse(straceout, root, marker_path):
             if path.decode(errors="replace") == marker_path:
                 # one trace line per step; a long line may take several write() calls
                 sm = STR.search(args[fm.end():])
-                if sm and unhex(sm.group(1)).endswith(b"\n"):
+                if sm and unhex(sm.group(1)) == b"\n":
                     step += 1
                     ops.append({"op": "step", "n": step})
                 continue
